@@ -1,5 +1,6 @@
 import RocflModel.Basic.CaseTable
 import RocflModel.Spec.LayoutSpec
+import Driver.Hist
 /-
   Line-protocol driver: runs the *model* definitions (and the spec definitions, for the oracle)
   on the same request lines the Rust harness executes against rocfl.
@@ -43,18 +44,25 @@ def doLayout (args : List String) : String :=
     | _, _, _, _, _, _ => "bad-arg"
   | _ => "bad-op"
 
-def step (line : String) : String :=
-  match line.trimAscii.toString.splitOn " " with
-  | "layout" :: args => doLayout args
-  | _ => "bad-op"
+structure DState where
+  hist : Driver.HState := {}
 
-partial def loop (h : IO.FS.Stream) (out : IO.FS.Stream) : IO Unit := do
+def step (st : DState) (line : String) : DState × String :=
+  match line.trimAscii.toString.splitOn " " with
+  | "layout" :: args => (st, doLayout args)
+  | op :: args =>
+    let (h, out) := Driver.histStep st.hist op args
+    ({ st with hist := h }, if h.nondet then out ++ " #nondet" else out)
+  | _ => (st, "bad-op")
+
+partial def loop (h : IO.FS.Stream) (out : IO.FS.Stream) (st : DState) : IO Unit := do
   let line ← h.getLine
   if line.isEmpty then return ()
-  out.putStrLn (step line)
-  loop h out
+  let (st', resp) := step st line
+  out.putStrLn resp
+  loop h out st'
 
 def main : IO Unit := do
   let out ← IO.getStdout
-  loop (← IO.getStdin) out
+  loop (← IO.getStdin) out {}
   out.flush
